@@ -457,21 +457,27 @@ def leg_selftest(chk, S):
     warmed-up operation MUST come back as a NoRace counterexample (TLC exit 12) on exactly that location; the same write
     placed inside the initialiser of a guard (InitWrite) MUST be accepted."""
     cl = S.classes()
-    host = max(cl, key=lambda c: sum(1 for a in c["acc"] if a["k"] == "gc"))
+    ng = lambda c: sum(1 for a in c["acc"] if a["k"] == "gc")
+    withg = [c for c in cl if ng(c)]
+    host = min(withg, key=lambda c: (ng(c), len(c["acc"]))) if withg else max(cl, key=lambda c: len(c["acc"]))
     loc = "selftest::scratch_buffer"
-    racy = {"kind": "op", "name": "selftest.racy", "acc": host["acc"] + [{"k": "u", "l": loc}], "members": ["selftest.racy"]}
-    base = [r for r in S.lines([]) if r["kind"] != "plan"]
-    rows = base + [racy, {"kind": "plan", "slots": [[host["name"], "selftest.racy"]]}]
+    # the host's own plain writes (a real defect of the tree under test) are left out: the self-test must fail or pass
+    # because of the synthetic access only
+    hostacc = [a for a in host["acc"] if a["k"] not in "wu"]
+    clean = {"kind": "op", "name": "selftest.clean", "acc": hostacc, "members": ["selftest.clean"]}
+    racy = {"kind": "op", "name": "selftest.racy", "acc": hostacc + [{"k": "u", "l": loc}], "members": ["selftest.racy"]}
+    base = [r for r in S.lines([]) if r["kind"] == "guard"]
+    rows = base + [clean, racy, {"kind": "plan", "slots": [["selftest.clean", "selftest.racy"]]}]
     r, viol = run_model("selftest: synthetic unguarded write (must be found)", rows, 2, False, chk, timeout=600, workers=4, xmx="2g")
     if viol is None or viol["invariant"] != "InvNoRace" or viol["trace"]["race"]["loc"] != loc:
         raise MachineryError("self-test failed: TLC did not return the racing interleaving for the synthetic unguarded write "
-                             "(exit %d, %s)" % (r.rc, viol and viol["invariant"]))
-    guards = [a["l"] for a in host["acc"] if a["k"] == "gc"]
+                             "(exit %d, %s)" % (r.rc, viol and (viol["invariant"], viol["trace"]["race"])))
+    guards = [a["l"] for a in hostacc if a["k"] == "gc"]
     if guards:
         g = guards[0]
-        rows2 = [dict(x, acc=x["acc"] + [{"k": "w", "l": loc}]) if (x["kind"] == "guard" and x["name"] == g) else x for x in base]
-        reader = {"kind": "op", "name": "selftest.guarded", "acc": host["acc"] + [{"k": "r", "l": loc}], "members": ["selftest.guarded"]}
-        rows2 += [reader, {"kind": "plan", "slots": [[host["name"], "selftest.guarded"]]}]
+        rows2 = [dict(x, acc=x["acc"] + [{"k": "w", "l": loc}]) if x["name"] == g else x for x in base]
+        reader = {"kind": "op", "name": "selftest.guarded", "acc": hostacc + [{"k": "r", "l": loc}], "members": ["selftest.guarded"]}
+        rows2 += [clean, reader, {"kind": "plan", "slots": [["selftest.clean", "selftest.guarded"]]}]
         r2, viol2 = run_model("selftest: the same write inside a guard (must pass)", rows2, 2, False, chk, timeout=600, workers=4, xmx="2g")
         if viol2 is not None:
             raise MachineryError("self-test failed: a guarded InitWrite was reported as %s" % viol2["invariant"])
@@ -520,35 +526,113 @@ def report(chk, S, viol, seen):
                     "summaries": rows})
 
 
+class Sizer:
+    """Estimates the number of distinct model states of a plan (calibrated on measured TLC runs: product of the threads'
+    step counts, times 1.35 per additional thread that checks the same guard) and picks seeded subsets of the operation
+    classes that fit a state budget.  Only sizes the bounded configurations; it decides nothing."""
+
+    def __init__(self, S, rng):
+        self.S = S
+        self.rng = rng
+        self.cl = {c["name"]: c for c in S.classes()}
+        self.names = list(self.cl)
+        self.W = set(a["l"] for c in self.cl.values() for a in c["acc"] if a["k"] in "wu") | \
+            set(a["l"] for b in S.guards.values() for a in b if a["k"] in "wu")
+        self._steps = {}
+
+    def steps(self, name, fuse):
+        key = (name, fuse)
+        if key not in self._steps:
+            n = 0
+            prev = False
+            for a in self.cl[name]["acc"]:
+                silent = a["k"] == "r" and a["l"] not in self.W
+                if silent and fuse:
+                    n += 0 if prev else 1
+                else:
+                    n += 1
+                    if a["k"] == "gc":
+                        n += len(self.S.guards.get(a["l"], [])) + 1
+                prev = silent
+            self._steps[key] = n + 1
+        return self._steps[key]
+
+    def guards(self, name):
+        return set(a["l"] for a in self.cl[name]["acc"] if a["k"] == "gc")
+
+    def estimate(self, slots, T, fuse):
+        import itertools
+        progs = list(itertools.product(*slots))
+        info = [(sum(self.steps(o, fuse) for o in p) + 1, set().union(*[self.guards(o) for o in p])) for p in progs]
+        tot = 0.0
+        for asg in itertools.combinations_with_replacement(range(len(progs)), T):
+            e = 1.0
+            cnt = {}
+            for i in asg:
+                e *= info[i][0]
+                for g in info[i][1]:
+                    cnt[g] = cnt.get(g, 0) + 1
+            for n in cnt.values():
+                e *= 1.35 ** (n - 1)
+            tot += e
+        return tot
+
+    def pick(self, sizes, T, fuse, budget, fixed_first=None):
+        """Seeded choice of one plan (list of slots) with estimate <= budget, as large as possible; at least one class with
+        guard checks or writes in every plan when there is one."""
+        interesting = [n for n in self.names if self.guards(n) or any(a["k"] in "wu" for a in self.cl[n]["acc"])]
+        sizes = list(sizes)
+        while True:
+            best = None
+            for _ in range(60):
+                slots = [list(fixed_first)] if fixed_first else []
+                for n in sizes[len(slots):]:
+                    slots.append(self.rng.sample(self.names, min(n, len(self.names))))
+                if interesting and not any(o in interesting for sl in slots for o in sl):
+                    continue
+                e = self.estimate(slots, T, fuse)
+                if e <= budget and (best is None or e > best[0]):
+                    best = (e, slots)
+            if best:
+                return best[1], best[0]
+            k = max(range(len(sizes)), key=lambda i: sizes[i] if not (fixed_first and i == 0) else -1)
+            if sizes[k] <= 1:
+                slots = [list(fixed_first)] if fixed_first else []
+                slots += [[min(self.names, key=lambda n: self.steps(n, fuse))] for _ in sizes[len(slots):]]
+                return slots, self.estimate(slots, T, fuse)
+            sizes[k] -= 1
+
+
 def leg_model(chk, S, tier):
     import random
     rng = random.Random(vlib.seed())
-    cl = S.classes()
-    names = [c["name"] for c in cl]
-    guardy = max(cl, key=lambda c: sum(1 for a in c["acc"] if a["k"] == "gc"))["name"]
-    writers = [c["name"] for c in cl if any(a["k"] in "wu" for a in c["acc"])]
-
-    def pick(n, must=()):
-        s = list(dict.fromkeys(list(must) + rng.sample(names, min(n, len(names)))))
-        return s[:max(n, len(must))]
-
+    sz = Sizer(S, rng)
+    names = sz.names
     quick = tier == "quick"
     runs = []
     # A: every pair of catalogue operations, one per thread, every access its own step
-    runs.append(("T=2 K=1 all pairs, unfused", [[names]], 2, False, not quick))
+    runs.append(("T=2 K=1 all pairs, every access a step", [names], 2, False, not quick, None))
     if quick:
-        runs.append(("T=2 K=1 seeded subset, unfused, coverage", [[pick(5, [guardy] + writers[:2])]], 2, False, True))
-        runs.append(("T=2 K=2 seeded subset", [[pick(6, writers[:2]), pick(3, [guardy])]], 2, True, False))
-        runs.append(("T=3 K=1 seeded subset", [[pick(3, [guardy] + writers[:1])]], 3, True, False))
+        runs.append(("T=2 K=1 seeded subset, every access a step, per-action coverage", [5], 2, False, True, 25000))
+        runs.append(("T=2 K=2 seeded subset", [6, 3], 2, True, False, 150000))
+        runs.append(("T=3 K=1 seeded subset", [4], 3, True, False, 150000))
     else:
-        runs.append(("T=2 K=2 all x seeded subset", [[names, pick(5, [guardy] + writers[:2])]], 2, True, False))
-        runs.append(("T=3 K=1 seeded subset", [[pick(6, [guardy] + writers[:2])]], 3, True, False))
-        runs.append(("T=3 K=2 seeded subset", [[pick(2, [guardy]), pick(2, writers[:1])]], 3, True, False))
+        runs.append(("T=2 K=2 all x seeded subset", [names, 5], 2, True, False, 5000000))
+        runs.append(("T=3 K=1 seeded subset", [7], 3, True, False, 5000000))
+        runs.append(("T=3 K=2 seeded subset", [3, 2], 3, True, False, 2500000))
     seen = set()
     taken = {}
     configs = 0
-    for label, plans, T, fuse, cov in runs:
-        r, viol = run_model(label, S.lines(plans), T, fuse, chk, timeout=3000 if not quick else 1200, coverage=cov)
+    plans_used = []
+    for label, spec, T, fuse, cov, budget in runs:
+        if budget is None:
+            slots, est = [spec[0]], sz.estimate([spec[0]], T, fuse)
+        elif isinstance(spec[0], list):
+            slots, est = sz.pick([len(spec[0])] + spec[1:], T, fuse, budget, fixed_first=spec[0])
+        else:
+            slots, est = sz.pick(spec, T, fuse, budget)
+        r, viol = run_model(label, S.lines([slots]), T, fuse, chk, timeout=1500 if quick else 3000, coverage=cov)
+        plans_used.append({"run": label, "T": T, "slots": slots, "estimated_states": int(est), "distinct_states": r.distinct})
         m = re.search(r"Finished computing initial states: (\d+) distinct", r.out)
         configs += int(m.group(1)) if m else 0
         for k, v in action_counts(r.out).items():
@@ -556,11 +640,14 @@ def leg_model(chk, S, tier):
         if viol is not None:
             report(chk, S, viol, seen)
     missing = [a for a in REQUIRED_ACTIONS if not taken.get(a)]
-    if missing and not seen:
-        if any(a["k"] == "gc" for c in cl for a in c["acc"]) or [a for a in missing if not a.startswith("DoGuard") and a != "DoInitWrite"]:
-            raise MachineryError("vacuity: actions never taken by TLC on the recorded summaries: %s" % missing)
+    has_guards = any(a["k"] == "gc" for c in sz.cl.values() for a in c["acc"])
+    if not seen:
+        hard = [a for a in missing if has_guards or a in ("DoEndOp",)]
+        if hard:
+            raise MachineryError("vacuity: actions never taken by TLC on the recorded summaries: %s" % hard)
     chk.cov["actions_taken"] = taken
-    chk.add_cases(configs, distinct_keys=(("class", c["name"]) for c in cl))
+    chk.cov["plans"] = plans_used
+    chk.add_cases(configs, distinct_keys=(("class", n) for n in names))
     return seen
 
 
